@@ -140,6 +140,12 @@ def r3(ctx: Ctx) -> None:
                 continue
             n += 1
             st = fl.stmt_of(e.node)
+            # a directory relocated entry by entry is, between two entries, half here and half there
+            walked = sorted(a for a in fl.atoms(e.path, e.node) if a in ('call:listdir', 'call:scandir', 'call:iterdir', 'call:glob', 'call:walk', 'call:rglob'))
+            if walked:
+                ctx.fail('C15.R3', f, f'piecewise:{src(e.path)[:30]}',
+                         f'shutil.move({src(e.path)}, …) moves the entries of a directory one at a time ({walked[0][5:]}): after an interruption or a failing move both the old and the new '
+                         f'directory exist with part of the files each; the next command picks one of them and classifies with an empty rule set while the rules are on disk in the other', e.node)
             g = fl.cfg.guard_literals(st)
             dst = src(e.dest)
             names = {dst}
@@ -184,7 +190,15 @@ def r4(ctx: Ctx) -> None:
     ctx.check(not bad, 'C15.R4', f, 'marker-last', 'no move is reachable after the schema marker has been written',
               'a move can still happen after the marker says the migration is complete', marker[0].node)
     # marker inside the new config dir
-    ok = 'new_config' in src([s for s in ast.walk(f.node) if isinstance(s, ast.Assign) and src(s.targets[0]) == 'schema_file'][0].value)
+    # marker inside the new config dir: its path is built from everything the destination of the config move is built from
+    param = f.node.args.args[0].arg
+    cmoves = [m for m in effs if isinstance(m.node, ast.Call) and len(m.node.args) >= 2 and (dotted(m.node.func) or '').startswith('shutil.')
+              and f'param:{param}' in fl.atoms(m.node.args[0], m.node)]
+    if len(cmoves) != 1:
+        ctx.unknown('C15.R4', f, f'{len(cmoves)} moves of the old config directory')
+    strip = lambda at: {a for a in at if not a.startswith('name:')}
+    dest = strip(fl.atoms(cmoves[0].node.args[1], cmoves[0].node))
+    ok = bool(dest) and dest <= strip(fl.atoms(marker[0].path, marker[0].node))
     ctx.check(ok, 'C15.R4', f, 'marker-location', 'marker is written into the new config directory', 'marker is not written into the migrated config directory')
 
 
